@@ -16,6 +16,7 @@ package main
 
 import (
 	"fmt"
+	"go/types"
 	"strings"
 
 	"golang.org/x/tools/go/ssa"
@@ -75,7 +76,20 @@ func (r *rwRT) ruleCloseContract() {
 				}
 				return nil
 			})
-			outs := in.Run(st, fn, []AV{Sym{Name: "r", NN: true}, SliceV{Elems: elems}, mkInt(0), children}, nil)
+			// (r, stmts, [start index,] children): the arguments follow the parameter types
+			args := []AV{Sym{Name: "r", NN: true}}
+			for i := 1; i < len(fn.Params); i++ {
+				switch t := fn.Params[i].Type().Underlying().(type) {
+				case *types.Slice:
+					args = append(args, SliceV{Elems: elems})
+				case *types.Basic:
+					args = append(args, mkInt(0))
+				default:
+					_ = t
+					args = append(args, children)
+				}
+			}
+			outs := in.Run(st, fn, args, nil)
 			r.account(in)
 			bad, combineBad := "", ""
 			for _, o := range outs {
